@@ -509,12 +509,39 @@ Definition set_detached_nodes (g : graph) (ks : list N) (b : bool) : graph :=
 (* RECURSIVE_CHECK_WITH_PRODUCTS *)
 Definition flag_with_products (g : graph) (k : N) : graph :=
   let ks := step_subtree g k in flag_keys FAfter ks (flag_keys FSafe ks g).
-(* RECURSIVE_CHECK_AFTER_SOURCES: attached steps two hops upstream of the step subtree of k *)
-Definition flag_after_sources (g : graph) (k : N) : graph :=
-  let sub := step_subtree g k in
-  let srcs := flat_map (fun x => flat_map (fun f => producers_of_node g f) (producers_of_node g x)) sub in
-  flag_keys FAfter
-    (filter (fun p => match find_step g p with Some s => negb (s_detached s) | None => false end) srcs) g.
+(* RECURSIVE_CHECK_AFTER_SOURCES: the steps two dependency hops upstream of the step subtree of k
+   (subtree step x <- file f <- source p) that satisfy every conjunct of the query's WHERE clause; the
+   conjuncts are generated (GenSched.cas_where), `w` is any such list.  The UPDATE touches step rows only. *)
+Definition node_detached (g : graph) (k : N) : bool :=
+  match find_step g k with
+  | Some s => s_detached s
+  | None => match find_file g k with
+            | Some f => f_detached f
+            | None => match find (fun o => o_key o =? k) (g_others g) with
+                      | Some o => o_detached o
+                      | None => false
+                      end
+            end
+  end.
+Definition cas_atom_holds (g : graph) (x f p : N) (a : cas_atom) : bool :=
+  match a with
+  | CasSrcIsStep => match find_step g p with Some _ => true | None => false end
+  | CasSrcAttached => negb (node_detached g p)
+  | CasNoOtherAttachedConsumer =>
+      negb (existsb (fun d => (d_src d =? f) && negb (node_detached g (d_snk d))) (g_deps g))
+  | CasNoOtherConsumer =>
+      negb (existsb (fun d => (d_src d =? f) && negb (d_snk d =? x)) (g_deps g))
+  end.
+Definition cas_sources (w : list cas_atom) (g : graph) (sub : list N) : list N :=
+  flat_map (fun x =>
+    flat_map (fun f => filter (fun p => forallb (cas_atom_holds g x f p) w) (producers_of_node g f))
+             (producers_of_node g x)) sub.
+Definition flag_after_sources_with (w : list cas_atom) (g : graph) (k : N) : graph :=
+  flag_keys FAfter (cas_sources w g (step_subtree g k)) g.
+Definition flag_after_sources : graph -> N -> graph := flag_after_sources_with cas_where.
+(* the atoms under which every attached producer of an input of the subtree is selected *)
+Definition cas_atom_total (a : cas_atom) : bool :=
+  match a with CasSrcIsStep | CasSrcAttached => true | _ => false end.
 
 (* Step.hold / Step.release *)
 Definition hold_step (g : graph) (k : N) : graph :=
@@ -539,7 +566,7 @@ Definition release_step (g : graph) (k : N) : option graph :=
   end.
 
 (* Step.detach (Node.detach + flags) *)
-Definition detach_step (g : graph) (k : N) : graph :=
+Definition detach_step_with (w : list cas_atom) (g : graph) (k : N) : graph :=
   match find_step g k with
   | None => g
   | Some s0 =>
@@ -552,8 +579,9 @@ Definition detach_step (g : graph) (k : N) : graph :=
             let g1' := with_steps g1 (map (fun s => if s_key s =? k then set_place s true None else s) (g_steps g1)) in
             if s_detached s0 then g1' else set_detached_nodes g1' sub true
         end in
-      flag_after_sources (flag_with_products g2 k) k
+      flag_after_sources_with w (flag_with_products g2 k) k
   end.
+Definition detach_step : graph -> N -> graph := detach_step_with cas_where.
 
 (* File.detach (Node.detach on a file node) *)
 Definition detach_file (g : graph) (k : N) : graph :=
